@@ -161,7 +161,7 @@ func verifServeH(handler http.HandlerFunc, body []byte, maxPointSize int, varied
 	sdbh := &SemaDBHandlers{}
 	user, plan, colId := "alice", "basic", "mycol"
 	if varied {
-		user = []string{"alice", "bob", "", "."}[nondetIntRange(0, 3)]
+		user = []string{"alice", "bob", "", ".", "%62ob", "alice%2Fprod", "bob "}[nondetIntRange(0, 6)]
 		plan = []string{"basic", "gold", ""}[nondetIntRange(0, 2)]
 		colId = []string{"mycol", "ab", "othercollection"}[nondetIntRange(0, 2)]
 	}
@@ -180,7 +180,7 @@ func verifServeH(handler http.HandlerFunc, body []byte, maxPointSize int, varied
 	vcover("served")
 	vassert("exactly-one-status-written", w.headerCalls == 1 && w.status >= 200 && w.status < 600)
 	c := verifCluster
-	headersOK := (user == "alice" || user == "bob") && plan == "basic" && len(colId) >= 3
+	headersOK := user != "" && user != "." && plan == "basic" && len(colId) >= 3
 	if !headersOK {
 		vassert("request-with-bad-headers-or-collection-id-is-refused-4xx-before-the-cluster-layer", w.status >= 400 && w.status < 500 && c.calls == 0)
 	}
